@@ -8,7 +8,10 @@
 //!   greta all|alone<i>                  GretaExecutor
 //!   engine all|alone<i>                 VPL text -> varpulis_parser::parse -> Engine::load -> Engine::process, TrendAggregateResult via .emit
 //!   enginegap alone<i> <gap_s>          as engine, events `gap_s` seconds apart (window = 60 s)
-//! Answers: `i=<k>:<q>:<v>,…  f=<q>:<v>,…` = incremental reports (event index k, query q, value v) and flush() reports.
+//! A `/` in E is a window boundary: the same aggregator/executor is flushed there and reused
+//! (the engine never flushes, so engine lines exist for single-window scenarios only).
+//! Answers: `i=<k>:<q>:<v>,…  f=<w>:<q>:<v>,…` = incremental reports (event index k over the whole stream,
+//! query q, value v) and the flush() reports of window w.
 use crate::util::{catch, Ctx};
 use std::sync::Arc;
 use varpulis_runtime::greta::{GretaAggregate, GretaExecutor, GretaQuery};
@@ -20,6 +23,8 @@ use varpulis_runtime::{Engine, Event};
 pub const NAMES: &[&str] = &["C25"];
 
 const TYPE_NAMES: [&str; 4] = ["A", "B", "C", "D"];
+/// pseudo event: window boundary (flush the aggregator, keep using it)
+const FLUSH: usize = 9;
 
 #[derive(Clone, Debug, PartialEq, Eq, Hash)]
 struct Query { steps: Vec<(usize, bool)> }
@@ -28,14 +33,14 @@ fn fmt_query(q: &Query) -> String {
     q.steps.iter().map(|(t, k)| format!("{}{}", t, if *k { "+" } else { "" })).collect::<Vec<_>>().join(",")
 }
 fn fmt_queries(qs: &[Query]) -> String { qs.iter().map(fmt_query).collect::<Vec<_>>().join(";") }
-fn fmt_events(evs: &[usize]) -> String { evs.iter().map(|t| t.to_string()).collect::<Vec<_>>().join(" ") }
+fn fmt_events(evs: &[usize]) -> String { evs.iter().map(|t| if *t == FLUSH { "/".to_string() } else { t.to_string() }).collect::<Vec<_>>().join(" ") }
 
-fn fmt_reports(inc: &mut Vec<(usize, u32, String)>, fl: &mut Vec<(u32, String)>) -> String {
+fn fmt_reports(inc: &mut Vec<(usize, u32, String)>, fl: &mut Vec<(usize, u32, String)>) -> String {
     inc.sort();
     fl.sort();
     format!("i={} f={}",
         inc.iter().map(|(k, q, v)| format!("{}:{}:{}", k, q, v)).collect::<Vec<_>>().join(","),
-        fl.iter().map(|(q, v)| format!("{}:{}", q, v)).collect::<Vec<_>>().join(","))
+        fl.iter().map(|(w, q, v)| format!("{}:{}:{}", w, q, v)).collect::<Vec<_>>().join(","))
 }
 
 /// HamletAggregator over `qs` (ids = positions in `ids`), template built as the repository builds it
@@ -64,12 +69,19 @@ fn run_hamlet(qs: &[Query], ids: &[u32], shared: bool, evs: &[usize]) -> String 
     let mut agg = HamletAggregator::new(HamletConfig { optimizer, window_ms: 60_000, incremental: true }, template);
     for r in regs { agg.register_query(r); }
     let mut inc = Vec::new();
-    for (k, t) in evs.iter().enumerate() {
+    let mut fl: Vec<(usize, u32, String)> = Vec::new();
+    let (mut k, mut w) = (0usize, 0usize);
+    for t in evs.iter().chain(std::iter::once(&FLUSH)) {
+        if *t == FLUSH {
+            for r in agg.flush() { fl.push((w, r.query_id, format!("{}{}", r.value, if r.is_final { "" } else { "?" }))); }
+            w += 1;
+            continue;
+        }
         for r in agg.process(Arc::new(Event::new(TYPE_NAMES[*t]))) {
             inc.push((k, r.query_id, format!("{}{}", r.value, if r.is_final { "!" } else { "" })));
         }
+        k += 1;
     }
-    let mut fl: Vec<(u32, String)> = agg.flush().into_iter().map(|r| (r.query_id, format!("{}{}", r.value, if r.is_final { "" } else { "?" }))).collect();
     fmt_reports(&mut inc, &mut fl)
 }
 
@@ -85,10 +97,17 @@ fn run_greta(qs: &[Query], evs: &[usize]) -> String {
         });
     }
     let mut inc = Vec::new();
-    for (k, t) in evs.iter().enumerate() {
+    let mut fl: Vec<(usize, u32, String)> = Vec::new();
+    let (mut k, mut w) = (0usize, 0usize);
+    for t in evs.iter().chain(std::iter::once(&FLUSH)) {
+        if *t == FLUSH {
+            for (q, v) in ex.flush() { fl.push((w, q, v.to_string())); }
+            w += 1;
+            continue;
+        }
         for (q, v) in ex.process(Arc::new(Event::new(TYPE_NAMES[*t]))) { inc.push((k, q, v.to_string())); }
+        k += 1;
     }
-    let mut fl: Vec<(u32, String)> = ex.flush().into_iter().map(|(q, v)| (q, v.to_string())).collect();
     fmt_reports(&mut inc, &mut fl)
 }
 
@@ -130,6 +149,7 @@ fn run_engine(rt: &tokio::runtime::Runtime, qs: &[Query], ids: &[u32], evs: &[us
 fn scenario(ctx: &mut Ctx, rt: &tokio::runtime::Runtime, qs: &[Query], evs: &[usize], with_engine: bool, fixed_gap: Option<i64>) {
     ctx.directive(&format!("new {} | {}", fmt_queries(qs), fmt_events(evs)));
     let all_ids: Vec<u32> = (0..qs.len() as u32).collect();
+    let with_engine = with_engine && !evs.contains(&FLUSH);
     let call = |f: &dyn Fn() -> String| -> String {
         let f = std::panic::AssertUnwindSafe(f);
         catch(move || f()).unwrap_or_else(|_| "panic".to_string())
@@ -173,7 +193,8 @@ fn scenario(ctx: &mut Ctx, rt: &tokio::runtime::Runtime, qs: &[Query], evs: &[us
         ctx.count("enginegap");
     }
     ctx.count(&format!("queries={}", qs.len()));
-    ctx.count(&format!("events={}", evs.len()));
+    ctx.count(&format!("events={}", evs.iter().filter(|t| **t != FLUSH).count()));
+    ctx.count(&format!("windows={}", 1 + evs.iter().filter(|t| **t == FLUSH).count()));
     let kl = qs.iter().map(|q| q.steps.iter().filter(|s| s.1).count()).max().unwrap_or(0);
     ctx.count(&format!("max_kleene_steps={}", kl));
 }
@@ -228,6 +249,30 @@ pub fn run(ctx: &mut Ctx, _name: &str) {
     scenario(ctx, &rt, &[ak_b.clone(), q(&[(0, true), (2, false)])], &[0, 2, 0], true, None);     // hamlet-sharing, sharing off
     scenario(ctx, &rt, &[ak_b.clone(), a_bk.clone()], &[0, 1, 1], true, None);                    // greta-shared-edges
     scenario(ctx, &rt, &[a_bk.clone(), q(&[(2, false), (1, true)])], &[0, 1], true, None);        // engine-sharing
+    // reuse after flush(): a later window that begins with Kleene-type events before its start event
+    scenario(ctx, &rt, &[a_bk.clone()], &[0, 1, FLUSH, 1, 1, 0, 1], false, None);
+    scenario(ctx, &rt, &[a_bk.clone(), q(&[(2, false), (1, true)])], &[0, 2, 1, FLUSH, 1, 1, 0, 1, FLUSH, 1, 2, 1], false, None);
+    // 2a. exhaustive two-window streams: every first window up to length 2 (3 thorough), every second up to 3 (4)
+    {
+        let (m1, m2, sets) = if ctx.thorough { (3usize, 4usize, fixed.len()) } else { (2usize, 3usize, 3) };
+        let streams = |max: usize| -> Vec<Vec<usize>> {
+            let mut out = Vec::new();
+            for len in 0..=max {
+                for code in 0..3usize.pow(len as u32) {
+                    let mut c = code;
+                    out.push((0..len).map(|_| { let t = c % 3; c /= 3; t }).collect());
+                }
+            }
+            out
+        };
+        let (s1, s2) = (streams(m1), streams(m2));
+        for set in fixed.iter().take(sets) {
+            for a in &s1 { for b in &s2 {
+                let mut evs = a.clone(); evs.push(FLUSH); evs.extend(b.iter().cloned());
+                scenario(ctx, &rt, set, &evs, false, None);
+            } }
+        }
+    }
     // 2. exhaustive short streams
     let (max_len, sets) = if ctx.thorough { (6usize, fixed.len()) } else { (4usize, 3) };
     for set in fixed.iter().take(sets) {
@@ -255,7 +300,12 @@ pub fn run(ctx: &mut Ctx, _name: &str) {
             qs.push(cand);
         }
         let ntypes = if ctx.rng.chance(1, 5) { 4 } else { 3 };
-        let evs = bursty(ctx, 12, ntypes);
+        let mut evs = bursty(ctx, 12, ntypes);
+        // a third of the streams are cut into 2-3 windows (the total stays <= 12 events)
+        if ctx.rng.chance(1, 3) {
+            let cuts = 1 + ctx.rng.below(2) as usize;
+            for _ in 0..cuts { let at = ctx.rng.below(evs.len() as u64 + 1) as usize; evs.insert(at, FLUSH); }
+        }
         scenario(ctx, &rt, &qs, &evs, true, None);
     }
 }
